@@ -8,7 +8,7 @@ RULE = ("cases = corpus + seeded cases (harness gen, splitmix64 from VERIF_SEED 
 
 CFG = {
     "gen_profiles": ["C05"],
-    "cases": {"quick": 240, "thorough": 2500},
+    "cases": {"quick": 400, "thorough": 4000},
     "compare": "full",
     "rule": RULE,
     "targets": {
